@@ -104,14 +104,14 @@ pub struct C11Case {
   /// scripts per input (items only; every input completes)
   pub scripts: Vec<Vec<i64>>,
   pub take: Option<usize>,
-  /// an aggregate downstream of merge / concat / flat_map: count | sum | reduce | max
+  /// an aggregate downstream of merge / concat / flat_map: count | sum | reduce | max | group_by | scan | buffer
   #[serde(default)]
   pub agg: Option<String>,
 }
 
 pub fn c11_strategy(_ctx: &Ctx) -> BoxedStrategy<C11Case> {
   let shape = prop::sample::select(vec!["merge", "zip", "amb", "concat", "flat_map", "merge_cold", "zip_cold"]);
-  let agg = prop::option::weighted(0.4, prop::sample::select(vec!["count", "sum", "reduce", "max", "group_by"]));
+  let agg = prop::option::weighted(0.4, prop::sample::select(vec!["count", "sum", "reduce", "max", "group_by", "scan", "buffer"]));
   (shape, 2usize..=3, prop::collection::vec(1usize..=4, 3), prop::option::weighted(0.4, 1usize..=4), sched_strategy(), agg)
     .prop_map(|(shape, k, lens, take, sched, agg)| {
       let scripts: Vec<Vec<Ev>> = (0..k).map(|i| unique_script(i, lens[i], Some(Ev::C))).collect();
@@ -165,6 +165,10 @@ pub fn c11_strategy(_ctx: &Ctx) -> BoxedStrategy<C11Case> {
           "reduce" => Op::Reduce(Fold::Add),
           // group_by(x mod 2), the groups flattened again: nothing lost, one group per key
           "group_by" => Op::GroupBy(2),
+          // running totals: every item enters the accumulator exactly once
+          "scan" => Op::Scan(Fold::Add),
+          // buffers of two: every item in exactly one buffer
+          "buffer" => Op::Buffer(2),
           _ => Op::Max,
         };
         root = Node::Un(op, Box::new(root));
@@ -264,6 +268,35 @@ fn c11_check(_ctx: &Ctx, c: &C11Case) -> Report {
         rep.fail = fail(format!("items of key {} arrived through two different groups: {:?}", key, pairs));
         return rep;
       }
+    }
+    return rep;
+  }
+  if c.agg.as_deref() == Some("scan") {
+    rep.classes.push("aggregate:scan".into());
+    let all: Vec<i64> = c.scripts.iter().flatten().copied().collect();
+    let flat: Vec<i64> = got.iter().map(|p| p.as_i64()).collect();
+    // (all items are positive: the largest running total is the last one computed, in
+    // whatever order two threads hand their totals on)
+    let total: i64 = all.iter().sum();
+    if flat.len() != all.len() || flat.iter().copied().max().unwrap_or(0) != total {
+      rep.fail = fail(format!("scan(+) over all inputs' items {:?} delivered the running totals {:?}: expected {} of them, the largest {}", all, flat, all.len(), total));
+    }
+    return rep;
+  }
+  if c.agg.as_deref() == Some("buffer") {
+    rep.classes.push("aggregate:buffer".into());
+    let all: Vec<i64> = c.scripts.iter().flatten().copied().collect();
+    let bufs: Vec<Vec<i64>> = got
+      .iter()
+      .map(|p| match p {
+        P::L(v) => v.iter().map(|x| x.as_i64()).collect(),
+        other => vec![other.as_i64()],
+      })
+      .collect();
+    let flat: Vec<i64> = bufs.iter().flatten().copied().collect();
+    let sizes_ok = bufs.iter().enumerate().all(|(i, b)| b.len() == 2 || (i + 1 == bufs.len() && b.len() == 1));
+    if multiset(&flat) != multiset(&all) || !sizes_ok {
+      rep.fail = fail(format!("buffer_with_count(2) over all inputs' items {:?} delivered {:?}", all, bufs));
     }
     return rep;
   }
@@ -1149,7 +1182,7 @@ pub fn properties() -> Vec<Property> {
     },
     Property {
       id: "C11",
-      rule: "cases = 2..3 inputs with unique item scripts (1..4 items + complete) pushed by harness threads into hot sources (merge, zip, amb, flat_map outer) or played by cold sources on their own scheduler threads (merge, zip, concat, flat_map inners), optional take(n) or aggregate (count / sum / reduce(+) / max over merge / concat / flat_map) downstream, generated schedule; oracle = conservation (multiset, per-input order, zip pairing, concat order, amb = exactly one input), exactly one complete and last, take(n) <= n, aggregate = the aggregate of all inputs' items; non-trivial = >= 4 thread switches",
+      rule: "cases = 2..3 inputs with unique item scripts (1..4 items + complete) pushed by harness threads into hot sources (merge, zip, amb, flat_map outer) or played by cold sources on their own scheduler threads (merge, zip, concat, flat_map inners), optional take(n) or aggregate (count / sum / reduce(+) / max / scan(+) / buffer_with_count(2) / group_by(x mod 2) over merge / concat / flat_map) downstream, generated schedule; oracle = conservation (multiset, per-input order, zip pairing, concat order, amb = exactly one input), exactly one complete and last, take(n) <= n, aggregate = the aggregate of all inputs' items (scan: as many running totals as items, the largest the total; buffer: every item in exactly one buffer; group_by: nothing lost, one group per key); non-trivial = >= 4 thread switches",
       assumptions: vec!["schedules explored by generation, not exhaustively"],
       subs: vec![mk_sub("combinators", (800, 15_000), c11_strategy, c11_check)],
     },
